@@ -672,6 +672,8 @@ fn cmd_session(args: &[String]) -> i32 {
         let mut o = out.lock();
         writeln!(o, "SESSION {}", si).unwrap();
         o.flush().unwrap();
+        // the session's environment: set before anything runs, the same for every call
+        let _env = EnvGuard::apply(sess.get("env"));
         let b = match build(&sess["def"]) {
             Ok(b) => b,
             Err(e) => {
